@@ -585,4 +585,137 @@ theorem walk_echo {v : Ver} {e : Echo} {lf : Bytes} (he : goodEcho v e = true)
         exact hf
     · exact hfireCase c' h1 h2
 
+/-! ## deliveries -/
+
+/-- the filed message is the reply itself (after line feeds left over from earlier messages, up to
+some point of its trailing line feeds), filed under the id of the request it answers -/
+def FiledFor (f : Nat × Bytes) (r : Reply) : Prop :=
+  f.1 = r.to ∧ ∃ lf j, allLF lf = true ∧ f.2 = lf ++ r.body ++ r.tail.take j
+
+/-- the list of filed messages matches the list of replies one to one, in order -/
+inductive AllFiled : List (Nat × Bytes) → List Reply → Prop
+  | nil : AllFiled [] []
+  | cons {f r fs rs} : FiledFor f r → AllFiled fs rs → AllFiled (f :: fs) (r :: rs)
+
+theorem AllFiled.append {f1 f2 r1 r2} (h1 : AllFiled f1 r1) (h2 : AllFiled f2 r2) :
+    AllFiled (f1 ++ f2) (r1 ++ r2) := by
+  induction h1 with
+  | nil => exact h2
+  | cons h _ ih => exact AllFiled.cons h ih
+
+theorem AllFiled.mem {fs rs} (h : AllFiled fs rs) {f} (hf : f ∈ fs) : ∃ r ∈ rs, FiledFor f r := by
+  induction h with
+  | nil => simp at hf
+  | cons h _ ih =>
+    simp only [List.mem_cons] at hf
+    rcases hf with hf | hf
+    · subst hf; exact ⟨_, by simp, h⟩
+    · obtain ⟨r, hr, hfr⟩ := ih hf
+      exact ⟨r, by simp [hr], hfr⟩
+
+theorem AllFiled.length {fs rs} (h : AllFiled fs rs) : fs.length = rs.length := by
+  induction h with
+  | nil => rfl
+  | cons _ _ ih => simp [ih]
+
+theorem goodReply_body_ne {v : Ver} {r : Reply} (hr : goodReply v r = true) : r.body ≠ [] := by
+  simp only [goodReply, Bool.and_eq_true] at hr
+  intro h
+  have := hr.1.1.1.2
+  rw [h, delimMatch_nil] at this
+  exact absurd this (by decide)
+
+theorem goodEcho_body_ne {v : Ver} {e : Echo} (he : goodEcho v e = true) : e.body ≠ [] := by
+  simp only [goodEcho, Bool.and_eq_true] at he
+  intro h
+  have := he.1.2
+  rw [h, delimMatch_nil] at this
+  exact absurd this (by decide)
+
+theorem goodReply_starts {v : Ver} {r : Reply} (hr : goodReply v r = true) :
+    v = .v10 ∨ startsLFOrEmpty (r.body ++ r.tail) = true := by
+  have hne := goodReply_body_ne hr
+  simp only [goodReply, Bool.and_eq_true, Bool.or_eq_true, beq_iff_eq] at hr
+  rcases hr.2 with h | h
+  · exact Or.inl h
+  · right
+    cases hb : r.body with
+    | nil => exact absurd hb hne
+    | cons c t => rw [hb] at h; simpa [startsLFOrEmpty] using h
+
+theorem walk_delivery {v : Ver} {d : Delivery} {lf0 : Bytes} (hd : d.valid v = true)
+    (hlf : allLF lf0 = true) :
+    ∃ fs lf', filings v lf0 d.chunks = (fs, lf') ∧ allLF lf' = true ∧
+      AllFiled fs d.unit.replies := by
+  obtain ⟨u, chunks⟩ := d
+  simp only [Delivery.valid, Bool.and_eq_true, beq_iff_eq] at hd
+  obtain ⟨⟨hgood, hflat⟩, hlast⟩ := hd
+  cases u with
+  | replyOnly r =>
+    simp only [Unit.good] at hgood
+    simp only [Unit.bytes] at hflat
+    have htl : allLF r.tail = true := by
+      simp only [goodReply, Bool.and_eq_true] at hgood; exact hgood.1.1.1.1.1.1
+    obtain ⟨j, hj⟩ := walk_reply hgood hlf chunks lf0
+      (by rw [hflat, List.append_assoc]) (Or.inl ⟨r.body, goodReply_body_ne hgood, rfl⟩)
+    refine ⟨_, _, hj, ?_, ?_⟩
+    · simp only [allLF, List.all_eq_true] at htl ⊢
+      exact fun x hx => htl x (List.mem_of_mem_drop hx)
+    · exact AllFiled.cons ⟨rfl, lf0, j, hlf, rfl⟩ AllFiled.nil
+  | echoOnly e =>
+    simp only [Unit.good] at hgood
+    simp only [Unit.bytes] at hflat
+    have htl : allLF e.tail = true := by
+      simp only [goodEcho, Bool.and_eq_true] at hgood; exact hgood.1.1.1.1
+    obtain ⟨x, pre, c, cs2, _, _, hxr, hf⟩ := walk_echo hgood hlf e.tail (Or.inr (allLF_startsLF htl))
+      chunks lf0 (by rw [hflat, List.append_assoc]) ⟨e.body, goodEcho_body_ne hgood, rfl⟩
+    have hall : allLF (x ++ cs2.flatten) = true := by rw [hxr]; exact htl
+    rw [allLF_append, Bool.and_eq_true] at hall
+    refine ⟨[], e.tail, ?_, htl, AllFiled.nil⟩
+    rw [hf, filings_tail v hall.1 (allLF_of_flatten hall.2), hxr]
+  | echoReply e r =>
+    simp only [Unit.good, Bool.and_eq_true] at hgood
+    simp only [Unit.bytes] at hflat
+    obtain ⟨hge, hgr⟩ := hgood
+    have htle : allLF e.tail = true := by
+      simp only [goodEcho, Bool.and_eq_true] at hge; exact hge.1.1.1.1
+    have htlr : allLF r.tail = true := by
+      simp only [goodReply, Bool.and_eq_true] at hgr; exact hgr.1.1.1.1.1.1
+    have hrest : v = .v10 ∨ startsLFOrEmpty (e.tail ++ (r.body ++ r.tail)) = true := by
+      rcases goodReply_starts hgr with h | h
+      · exact Or.inl h
+      · exact Or.inr (startsLF_append htle h)
+    obtain ⟨x, pre, c, cs2, hcs, hc, hxr, hf⟩ := walk_echo hge hlf (e.tail ++ (r.body ++ r.tail)) hrest
+      chunks lf0 (by rw [hflat]; simp only [List.append_assoc])
+      ⟨e.body, goodEcho_body_ne hge, rfl⟩
+    have hcs2 : cs2 ≠ [] := by
+      intro h
+      subst h
+      simp only at hlast
+      rw [hcs, List.getLast?_append] at hlast
+      simp at hlast
+      exact hc hlast
+    obtain ⟨j, hj⟩ := walk_reply hgr htle cs2 x (by rw [hxr]; simp only [List.append_assoc])
+      (Or.inr hcs2)
+    refine ⟨_, _, hf.trans hj, ?_, ?_⟩
+    · simp only [allLF, List.all_eq_true] at htlr ⊢
+      exact fun y hy => htlr y (List.mem_of_mem_drop hy)
+    · exact AllFiled.cons ⟨rfl, e.tail, j, htle, rfl⟩ AllFiled.nil
+
+theorem framing {v : Ver} : ∀ (ds : List Delivery) (lf0 : Bytes),
+    (∀ d ∈ ds, d.valid v = true) → allLF lf0 = true →
+    ∃ fs lf', filings v lf0 (ds.flatMap (·.chunks)) = (fs, lf') ∧ allLF lf' = true ∧
+      AllFiled fs (ds.flatMap (·.unit.replies)) := by
+  intro ds
+  induction ds with
+  | nil => intro lf0 _ hlf; exact ⟨[], lf0, rfl, hlf, AllFiled.nil⟩
+  | cons d ds ih =>
+    intro lf0 hv hlf
+    obtain ⟨fs1, lf1, h1, hlf1, hF1⟩ := walk_delivery (hv d (by simp)) hlf
+    obtain ⟨fs2, lf2, h2, hlf2, hF2⟩ := ih lf1 (fun d' hd' => hv d' (by simp [hd'])) hlf1
+    refine ⟨fs1 ++ fs2, lf2, ?_, hlf2, ?_⟩
+    · simp only [List.flatMap_cons, filings_append, h1, h2]
+    · simp only [List.flatMap_cons]
+      exact AllFiled.append hF1 hF2
+
 end Scrapli.Netconf.Store
